@@ -16,6 +16,7 @@ import (
 // (fields of the receiver, globals) end the walk.
 func (p *Prog) backwardReaches(v ssa.Value, target func(ssa.Value) bool) bool {
 	seen := map[ssa.Value]bool{}
+	lvl := 0
 	var walk func(v ssa.Value, depth int) bool
 	walk = func(v ssa.Value, depth int) bool {
 		if v == nil || seen[v] || depth > 200 {
@@ -71,6 +72,42 @@ func (p *Prog) backwardReaches(v ssa.Value, target func(ssa.Value) bool) bool {
 			for _, op := range x.Operands(nil) {
 				if *op != nil && walk(*op, depth+1) {
 					return true
+				}
+			}
+			// the result of a repository helper also depends on what the helper's returns are computed from (fields
+			// of its receiver, …): a test moved into a predicate helper is still that test
+			if c, ok := v.(*ssa.Call); ok && lvl < 3 {
+				if sc := c.Call.StaticCallee(); sc != nil && p.InUniverse(sc) && sc.Blocks != nil {
+					lvl++
+					isPred := false
+					if b, ok := c.Type().Underlying().(*types.Basic); ok && b.Kind() == types.Bool {
+						isPred = true
+					}
+					var pdom map[*ssa.BasicBlock]map[*ssa.BasicBlock]bool
+					for _, b := range sc.Blocks {
+						if ret, ok := b.Instrs[len(b.Instrs)-1].(*ssa.Return); ok {
+							for _, r := range ret.Results {
+								if walk(r, depth+1) {
+									lvl--
+									return true
+								}
+							}
+							// a predicate helper that returns constants: its result is decided by the tests that select
+							// the return
+							if isPred {
+								if pdom == nil {
+									pdom = postDominators(sc)
+								}
+								for cb := range transitiveControlDeps(sc, pdom, b) {
+									if cnd := ifCond(cb); cnd != nil && walk(cnd, depth+1) {
+										lvl--
+										return true
+									}
+								}
+							}
+						}
+					}
+					lvl--
 				}
 			}
 		}
